@@ -3,6 +3,8 @@
 Regenerated from /repo on every run, on top of gen/Gen_mbf.v (the same translator and idiom layer,
 translate/targets/gen_mbf.py, imported read-only):
 
+  dec_div_den          Float._div_den        (same text as Gen_mbf.mbf_div_den; regenerated here so that the
+                                             name of its loop is fixed by this file)
   mbf_div10_den        Float._div10_den      (division by the class constant _ten + renormalisation loop)
   mbf_to_decimal_core  Float.to_decimal      the statements from `tden = lim_top._denormalise()` to
                                              `return num, exp10` (both scaling loops, both carry
@@ -172,6 +174,8 @@ def generate(repo):
     t.emit('Definition dec_single_digits : Z := %d.' % find_threshold(m))
 
     # ---- the conversion core
+    # _div_den once more under a name of this file, so that its loop name does not depend on Gen_mbf's numbering
+    t.method('Float', '_div_den', 'dec_div_den', buffer=False, params={'lden': den, 'rden': den})
     t.method('Float', '_div10_den', 'mbf_div10_den', buffer=False, params={'lden': den})
     t.method('Float', 'to_decimal', 'mbf_to_decimal_core',
              params={'lim_bot': 'list Z', 'lim_top': 'list Z'},
